@@ -116,20 +116,25 @@ Example ex_event_set_hyp :
 Proof. vm_compute. repeat split; discriminate. Qed.
 
 (* ====================================================================================================== *)
-(*  Condition                                                                                             *)
+(*  Conditions on a shared Lock (HEAD: variant 0)                                                         *)
 (* ====================================================================================================== *)
 Tactic Notation "cnorm" "in" hyp(H) :=
-  cbn [with_lk with_owner with_cw with_phase with_efut with_inflight with_counts
-       lk owner_rec cphase_of pinned cwaiters eset efut nev cenq setlog inflight issued consumed dropped lost] in H.
+  cbn [with_lk with_owner with_cw with_phase with_efut with_inflight with_nlog with_counts
+       variant lk owner_rec cwaiters eset efut nev cphase_of cenq setlog inflight horizon nlog
+       issued consumed dropped lost] in H.
 Tactic Notation "cnorm" "in" "*" :=
-  cbn [with_lk with_owner with_cw with_phase with_efut with_inflight with_counts
-       lk owner_rec cphase_of pinned cwaiters eset efut nev cenq setlog inflight issued consumed dropped lost] in *.
+  cbn [with_lk with_owner with_cw with_phase with_efut with_inflight with_nlog with_counts
+       variant lk owner_rec cwaiters eset efut nev cphase_of cenq setlog inflight horizon nlog
+       issued consumed dropped lost] in *.
 
-Definition creach (fa : bool) (s : cst) : Prop := exists ops, s = final cstep (cinit fa false) ops.
+(* every state reachable by SOME sequence over the whole alphabet: acquire / acquire_nowait / release / notify /
+   notify_all / wait through any condition on the lock, the same lock used directly, resumptions, native and
+   AnyIO cancellations *)
+Definition creach (fa : bool) (s : cst) : Prop := exists ops, s = final cstep (cinit fa 0) ops.
 
 (* documented scope: histories without a native Task.cancel() inside wait()'s shielded re-acquire *)
 Definition creach_clean (fa : bool) (s : cst) : Prop :=
-  exists ops, clean_run (cinit fa false) ops = true /\ s = final cstep (cinit fa false) ops.
+  exists ops, clean_run (cinit fa 0) ops = true /\ s = final cstep (cinit fa 0) ops.
 
 Lemma creach_inv fa s : creach fa s -> CInv s.
 Proof. intros [ops ->]. apply creachable_inv. Qed.
@@ -140,8 +145,8 @@ Proof. intros [ops ->]. exists (ops ++ [o]). rewrite final_app. reflexivity. Qed
 Lemma creach_clean_reach fa s : creach_clean fa s -> creach fa s.
 Proof. intros (ops & _ & ->). now exists ops. Qed.
 
-Lemma qinv_init fa : QInv (cinit fa false).
-Proof. intros t e x H. discriminate. Qed.
+Lemma qinv_init fa : QInv (cinit fa 0).
+Proof. intros t c e x H. discriminate. Qed.
 
 Lemma clean_final ops : forall s, CInv s -> QInv s -> clean_run s ops = true ->
   CInv (final cstep s ops) /\ QInv (final cstep s ops).
@@ -154,88 +159,87 @@ Qed.
 Lemma creach_clean_qinv fa s : creach_clean fa s -> CInv s /\ QInv s.
 Proof. intros (ops & H & ->). apply clean_final; [apply cinv_init|apply qinv_init|exact H]. Qed.
 
-Lemma finish_wait_res s t e exc l' r s' r' :
-  finish_wait s t e exc l' r = (s', r') ->
+Lemma finish_wait_res s t c e exc l' r s' r' :
+  finish_wait s t c e exc l' r = (s', r') ->
   r' = (match r with RBlocked => RBlocked | RDone => if exc then RCancelled else RDone | _ => r end).
 Proof. destruct r, exc; cbn; intros [= _ <-]; reflexivity. Qed.
 
-Lemma finish_wait_consumed s t e l' :
-  consumed (fst (finish_wait s t e false l' RDone)) = S (consumed s).
+Lemma finish_wait_consumed s t c e l' :
+  consumed (fst (finish_wait s t c e false l' RDone)) = S (consumed s).
 Proof. reflexivity. Qed.
 
 Definition same_ev (s1 s : cst) : Prop :=
   cwaiters s1 = cwaiters s /\ eset s1 = eset s /\ efut s1 = efut s /\ inflight s1 = inflight s /\
   setlog s1 = setlog s /\ issued s1 = issued s /\ consumed s1 = consumed s /\ dropped s1 = dropped s /\
-  lost s1 = lost s.
+  lost s1 = lost s /\ horizon s1 = horizon s /\ nlog s1 = nlog s.
 
-Lemma do_set_counts s e :
-  lost (do_set s e) = lost s /\ consumed (do_set s e) = consumed s /\ issued (do_set s e) = issued s /\
-  inflight (do_set s e) = inflight s /\ dropped (do_set s e) = dropped s.
+Lemma do_set_counts s e hz :
+  lost (do_set s e hz) = lost s /\ consumed (do_set s e hz) = consumed s /\ issued (do_set s e hz) = issued s /\
+  inflight (do_set s e hz) = inflight s /\ dropped (do_set s e hz) = dropped s.
 Proof. unfold do_set. destruct (eset s e); cbn; auto. Qed.
 
-Lemma wait_interrupted_counts s e :
-  lost (wait_interrupted s e) = lost s /\ consumed (wait_interrupted s e) = consumed s /\
-  issued (wait_interrupted s e) = issued s.
+Lemma wait_interrupted_counts s c e :
+  lost (wait_interrupted s c e) = lost s /\ consumed (wait_interrupted s c e) = consumed s /\
+  issued (wait_interrupted s c e) = issued s.
 Proof.
   unfold wait_interrupted. destruct (eset s e); [|cnorm; auto].
-  destruct (cwaiters s) as [|h q]; [cnorm; auto|].
-  cnorm. destruct (do_set_counts (with_cw s q) h) as (-> & -> & -> & _). cnorm. auto.
+  destruct (cwaiters s c) as [|h q]; [cnorm; auto|].
+  cnorm. destruct (do_set_counts (with_cw s c q) h (horizon s e)) as (-> & -> & -> & _). cnorm. auto.
 Qed.
 
 (* what one resumption of a task inside wait() computes: the lock result r of the (start of / rest of) the
    shielded re-acquire and whether an exception is pending *)
 Lemma resume_in_wait s t s' res :
-  CInv s -> (exists e, cphase_of s t = PWait e \/ exists x, cphase_of s t = PReacq e x) ->
+  CInv s -> (exists c e, cphase_of s t = PWait c e \/ exists x, cphase_of s t = PReacq c e x) ->
   cstep s (CResume t) = (s', res) ->
   (res = RRejected /\ s' = s) \/
-  exists s1 e exc l' r,
-    finish_wait s1 t e exc l' r = (s', res) /\ Inv l' /\
-    owner_rec s1 = owner_rec s /\
+  exists s1 c e exc l' r,
+    finish_wait s1 t c e exc l' r = (s', res) /\ Inv l' /\
     (lost s1 = lost s /\ consumed s1 = consumed s /\ issued s1 = issued s) /\
     (exc = false -> eset s e = true /\ same_ev s1 s) /\
-    (cphase_of s t = PWait e \/ cphase_of s t = PReacq e exc) /\
+    (cphase_of s t = PWait c e \/ cphase_of s t = PReacq c e exc) /\
     match r with
     | RDone => In t (held l')
     | RBlocked => True
-    | RCancelled => exists e0 x0, cphase_of s t = PReacq e0 x0 /\ ~ reacq_ok (lk s) t
+    | RCancelled => exists c0 e0 x0, cphase_of s t = PReacq c0 e0 x0 /\ ~ reacq_ok (lk s) t
     | _ => False
     end.
 Proof.
-  intros CI (e & Hph) E. destruct CI as [P K [V C]]. unfold LkInv in K.
+  intros CI (c & e & Hph) E. destruct CI as [P K [V C]]. unfold LkInv in K.
   revert E. cbn [cstep]. destruct Hph as [Ep|[x Ep]]; rewrite Ep.
   - (* PWait *)
-    assert (Hpv : pv (cphase_of s t) = Some (e, false)) by (now apply pv_wait).
-    pose proof (LK_mustc _ _ _ t false K) as K0.
+    assert (Hpv : pv (cphase_of s t) = Some (c, e, false)) by (now apply pv_wait).
+    pose proof (LK_mustc _ _ t false K) as K0.
     assert (Hli : phase_of (set_mustc (lk s) t false) t = Idle)
-      by (apply (K_coupling _ _ _ K0); rewrite Ep; reflexivity).
+      by (apply (K_coupling _ _ K0); rewrite Ep; reflexivity).
     assert (Hnh : ~ In t (held (set_mustc (lk s) t false)))
       by (eapply not_held_if_not_pidle; [exact K0|congruence]).
     assert (Hgen : forall s1 xx,
-               lk s1 = set_mustc (lk s) t false /\ owner_rec s1 = owner_rec s /\ cphase_of s1 = cphase_of s ->
+               lk s1 = set_mustc (lk s) t false /\ cphase_of s1 = cphase_of s ->
                (lost s1 = lost s /\ consumed s1 = consumed s /\ issued s1 = issued s) ->
                (xx = false -> eset s e = true /\ same_ev s1 s) ->
-               (let '(l', r) := Lock.step (lk s1) (AcqBegin t) in finish_wait s1 t e xx l' r) = (s', res) ->
-               exists s1 e0 exc l' r,
-                 finish_wait s1 t e0 exc l' r = (s', res) /\ Inv l' /\ owner_rec s1 = owner_rec s /\
+               (let '(l', r) := Lock.step (lk s1) (AcqBegin t) in finish_wait s1 t c e xx l' r) = (s', res) ->
+               exists s1 c0 e0 exc l' r,
+                 finish_wait s1 t c0 e0 exc l' r = (s', res) /\ Inv l' /\
                  (lost s1 = lost s /\ consumed s1 = consumed s /\ issued s1 = issued s) /\
                  (exc = false -> eset s e0 = true /\ same_ev s1 s) /\
-                 (PWait e = PWait e0 \/ PWait e = PReacq e0 exc) /\
+                 (PWait c e = PWait c0 e0 \/ PWait c e = PReacq c0 e0 exc) /\
                  match r with
                  | RDone => In t (held l')
                  | RBlocked => True
-                 | RCancelled => exists e1 x0, PWait e = PReacq e1 x0 /\ ~ reacq_ok (lk s) t
+                 | RCancelled => exists c1 e1 x0, PWait c e = PReacq c1 e1 x0 /\ ~ reacq_ok (lk s) t
                  | _ => False
                  end).
-    { intros s1 xx (P1 & P2 & P3) Hcnt Hxx. rewrite P1.
+    { intros s1 xx (P1 & P3) Hcnt Hxx. rewrite P1.
       destruct (Lock.step (set_mustc (lk s) t false) (AcqBegin t)) as [l' r] eqn:El.
-      destruct (lstep_frames _ _ _ _ (K_lock _ _ _ K0) El) as (I' & _).
+      destruct (lstep_frames _ _ _ _ (K_lock _ _ K0) El) as (I' & _).
       pose proof (lstep_acq_res _ t _ _ _ (or_introl eq_refl) Hli El) as Rr.
-      intros E. exists s1, e, xx, l', r.
-      refine (conj E (conj I' (conj P2 (conj Hcnt (conj Hxx (conj (or_introl eq_refl) _)))))).
+      intros E. exists s1, c, e, xx, l', r.
+      refine (conj E (conj I' (conj Hcnt (conj Hxx (conj (or_introl eq_refl) _))))).
       destruct r; try contradiction; auto.
       - tauto.
       - (* RRuntime: the lock would have to be owned by t already *)
-        destruct Rr as [_ Ho]. apply (I_owner _ (K_lock _ _ _ K0)) in Ho.
+        destruct Rr as [_ Ho]. apply (I_owner _ (K_lock _ _ K0)) in Ho.
         destruct Ho as [H|[H|(f & H & _)]]; [contradiction|congruence|congruence].
       - (* RWouldBlock is never produced by acquire() *)
         revert El. cbn [Lock.step]. rewrite Hli. cbn [is_idle negb].
@@ -246,32 +250,32 @@ Proof.
     + intros E. right. eapply Hgen; [| | |exact E].
       * destruct (mustc (lk s) t); [apply wait_interrupted_proj3|cnorm; auto].
       * destruct (mustc (lk s) t); [|cnorm; auto].
-        destruct (wait_interrupted_counts (with_lk s (set_mustc (lk s) t false)) e) as (-> & -> & ->).
+        destruct (wait_interrupted_counts (with_lk s (set_mustc (lk s) t false)) c e) as (-> & -> & ->).
         cnorm. auto.
       * destruct (mustc (lk s) t); [discriminate|]. intros _. split; [|unfold same_ev; cnorm; tauto].
         destruct (eset s e) eqn:Ees; [reflexivity|]. exfalso.
-        destruct (V_wait0 _ _ _ _ _ _ _ _ V t e Hpv Ees) as [_ H]. contradiction.
+        destruct (V_wait0 _ _ _ _ _ _ _ _ V t c e Hpv Ees) as [_ H]. contradiction.
     + intros E. right. eapply Hgen; [| | |exact E].
       * apply wait_interrupted_proj3.
-      * destruct (wait_interrupted_counts (with_lk s (set_mustc (lk s) t false)) e) as (-> & -> & ->).
+      * destruct (wait_interrupted_counts (with_lk s (set_mustc (lk s) t false)) c e) as (-> & -> & ->).
         cnorm. auto.
       * discriminate.
   - (* PReacq *)
     assert (Hli : phase_of (lk s) t <> Idle).
-    { intros H. apply (K_coupling _ _ _ K) in H. rewrite Ep in H. discriminate. }
+    { intros H. apply (K_coupling _ _ K) in H. rewrite Ep in H. discriminate. }
     destruct (Lock.step (lk s) (Resume t)) as [l' r] eqn:El.
-    destruct (lstep_frames _ _ _ _ (K_lock _ _ _ K) El) as (I' & _).
-    pose proof (lstep_resume_res _ t _ _ (K_lock _ _ _ K) Hli El) as Rr.
+    destruct (lstep_frames _ _ _ _ (K_lock _ _ K) El) as (I' & _).
+    pose proof (lstep_resume_res _ t _ _ (K_lock _ _ K) Hli El) as Rr.
     assert (Hes : x = false -> eset s e = true /\ same_ev s s).
-    { intros ->. split; [|unfold same_ev; tauto]. apply (V_reacq _ _ _ _ _ _ _ _ V t e). now apply pv_reacq. }
+    { intros ->. split; [|unfold same_ev; tauto]. apply (V_reacq _ _ _ _ _ _ _ _ V t c e). now apply pv_reacq. }
     destruct r; try contradiction.
-    + intros E. right. exists s, e, x, l', RDone.
-      refine (conj E (conj I' (conj eq_refl (conj (conj eq_refl (conj eq_refl eq_refl))
-               (conj Hes (conj (or_intror eq_refl) _)))))). tauto.
-    + intros E. right. exists s, e, x, l', RCancelled.
-      refine (conj E (conj I' (conj eq_refl (conj (conj eq_refl (conj eq_refl eq_refl))
-               (conj Hes (conj (or_intror eq_refl) _)))))).
-      exists e, x. split; [reflexivity|]. intros [Q1 Q2]. destruct Rr as (_ & _ & [Hm|(f & Hf & Hc)]).
+    + intros E. right. exists s, c, e, x, l', RDone.
+      refine (conj E (conj I' (conj (conj eq_refl (conj eq_refl eq_refl))
+               (conj Hes (conj (or_intror eq_refl) _))))). tauto.
+    + intros E. right. exists s, c, e, x, l', RCancelled.
+      refine (conj E (conj I' (conj (conj eq_refl (conj eq_refl eq_refl))
+               (conj Hes (conj (or_intror eq_refl) _))))).
+      exists c, e, x. split; [reflexivity|]. intros [Q1 Q2]. destruct Rr as (_ & _ & [Hm|(f & Hf & Hc)]).
       * congruence.
       * apply (Q2 f Hf Hc).
     + intros [= <- <-]. left. auto.
@@ -280,32 +284,32 @@ Qed.
 (* 4. wait() returns normally only to a task whose event was set by a notify (or handed on by a notified
       waiter) and which holds the lock again *)
 Theorem cond_wait_returns_notified_and_holding fa s t s' :
-  creach fa s -> (exists e, cphase_of s t = PWait e \/ exists x, cphase_of s t = PReacq e x) ->
+  creach fa s -> (exists c e, cphase_of s t = PWait c e \/ exists x, cphase_of s t = PReacq c e x) ->
   cstep s (CResume t) = (s', RDone) ->
-  (exists e, (cphase_of s t = PWait e \/ cphase_of s t = PReacq e false) /\
-             eset s e = true /\ In e (setlog s) /\ In e (inflight s)) /\
-  In t (held (lk s')) /\ owner (lk s') = Some t /\ owner_rec s' = Some t /\ cphase_of s' t = PIdle /\
+  (exists c e, (cphase_of s t = PWait c e \/ cphase_of s t = PReacq c e false) /\
+               eset s e = true /\ In e (setlog s) /\ In e (inflight s)) /\
+  In t (held (lk s')) /\ owner (lk s') = Some t /\ cphase_of s' t = PIdle /\
   consumed s' = S (consumed s).
 Proof.
   intros R Hph E. destruct (creach_inv fa s R) as [P K [V C]].
   destruct (resume_in_wait s t s' RDone (creach_inv fa s R) Hph E)
-    as [[Hrj _]|(s1 & e & exc & l' & r & Ef & I' & Po & Hcnt & Hes & Hp & Hr)];
+    as [[Hrj _]|(s1 & c & e & exc & l' & r & Ef & I' & Hcnt & Hes & Hp & Hr)];
     [discriminate|].
-  pose proof (finish_wait_res _ _ _ _ _ _ _ _ Ef) as Hres.
+  pose proof (finish_wait_res _ _ _ _ _ _ _ _ _ Ef) as Hres.
   assert (Hx : exc = false /\ r = RDone).
   { destruct r, exc; try discriminate; auto; try contradiction. }
   destruct Hx as [-> ->]. cbn in Hr.
-  assert (Es' : s' = fst (finish_wait s1 t e false l' RDone)) by (now rewrite Ef).
-  destruct (finish_wait_proj s1 t e false l' RDone) as (F1 & _ & F3 & F4).
+  assert (Es' : s' = fst (finish_wait s1 t c e false l' RDone)) by (now rewrite Ef).
+  destruct (finish_wait_proj s1 t c e false l' RDone) as (F1 & _ & F4).
   destruct (Hes eq_refl) as [Hes' Hsame]. destruct Hsame as (_ & _ & _ & _ & _ & _ & Hc1 & _).
   assert (Hinfl : In e (inflight s)).
   { destruct Hp as [Hp|Hp].
-    - apply (V_wait1 _ _ _ _ _ _ _ _ V t e); [now apply pv_wait|exact Hes'].
-    - apply (V_reacq _ _ _ _ _ _ _ _ V t e). now apply pv_reacq. }
+    - apply (V_wait1 _ _ _ _ _ _ _ _ V t c e); [now apply pv_wait|exact Hes'].
+    - apply (V_reacq _ _ _ _ _ _ _ _ V t c e). now apply pv_reacq. }
   split.
-  - exists e. refine (conj Hp (conj Hes' (conj _ Hinfl))). apply (V_setlog _ _ _ _ _ _ _ _ V), Hes'.
-  - rewrite Es', F1, F3, F4, upd_same, finish_wait_consumed, Hc1.
-    refine (conj Hr (conj _ (conj eq_refl (conj eq_refl eq_refl)))).
+  - exists c, e. refine (conj Hp (conj Hes' (conj _ Hinfl))). apply (V_setlog _ _ _ _ _ _ _ _ V), Hes'.
+  - rewrite Es', F1, F4, upd_same, finish_wait_consumed, Hc1.
+    refine (conj Hr (conj _ (conj eq_refl eq_refl))).
     apply (I_owner l' I'). left. exact Hr.
 Qed.
 
@@ -313,71 +317,80 @@ Qed.
        normally or by re-raising the cancellation that interrupted the event wait - leaves the caller holding
        the lock; the re-acquire itself never fails, so no other outcome exists and nothing is ever `lost`. *)
 Theorem cond_wait_ends_holding_clean fa s t s' res :
-  creach_clean fa s -> (exists e, cphase_of s t = PWait e \/ exists x, cphase_of s t = PReacq e x) ->
+  creach_clean fa s -> (exists c e, cphase_of s t = PWait c e \/ exists x, cphase_of s t = PReacq c e x) ->
   cstep s (CResume t) = (s', res) -> res <> RRejected -> res <> RBlocked ->
   (res = RDone \/ res = RCancelled) /\
-  In t (held (lk s')) /\ owner (lk s') = Some t /\ owner_rec s' = Some t /\ cphase_of s' t = PIdle /\
+  In t (held (lk s')) /\ owner (lk s') = Some t /\ cphase_of s' t = PIdle /\
   lost s' = lost s.
 Proof.
   intros Rc Hph E Hrej Hblk. pose proof (creach_clean_reach fa s Rc) as R.
   destruct (creach_clean_qinv fa s Rc) as [_ Q].
   destruct (resume_in_wait s t s' res (creach_inv fa s R) Hph E)
-    as [[Hrj _]|(s1 & e & exc & l' & r & Ef & I' & Po & (Hl & _) & Hes & Hp & Hr)]; [contradiction|].
-  pose proof (finish_wait_res _ _ _ _ _ _ _ _ Ef) as Hres.
+    as [[Hrj _]|(s1 & c & e & exc & l' & r & Ef & I' & (Hl & _) & Hes & Hp & Hr)]; [contradiction|].
+  pose proof (finish_wait_res _ _ _ _ _ _ _ _ _ Ef) as Hres.
   assert (Hrd : r = RDone).
   { destruct r; try contradiction; auto.
-    destruct Hr as (e0 & x0 & He0 & Hnok). exfalso. apply Hnok. eapply Q; eauto. }
+    destruct Hr as (c0 & e0 & x0 & He0 & Hnok). exfalso. apply Hnok. eapply Q; eauto. }
   subst r. cbn in Hr.
-  assert (Es' : s' = fst (finish_wait s1 t e exc l' RDone)) by (now rewrite Ef).
-  destruct (finish_wait_proj s1 t e exc l' RDone) as (F1 & _ & F3 & F4).
+  assert (Es' : s' = fst (finish_wait s1 t c e exc l' RDone)) by (now rewrite Ef).
+  destruct (finish_wait_proj s1 t c e exc l' RDone) as (F1 & _ & F4).
   split; [destruct exc; subst res; auto|].
-  rewrite Es', F1, F3, F4, upd_same.
-  refine (conj Hr (conj _ (conj eq_refl (conj eq_refl _)))).
+  rewrite Es', F1, F4, upd_same.
+  refine (conj Hr (conj _ (conj eq_refl _))).
   - apply (I_owner l' I'). left. exact Hr.
   - rewrite <- Hl. destruct exc; reflexivity.
 Qed.
 
 (* ---------------------------------------------------------------------------------------------------- *)
-(* 5. notify(n) sets the first min(n, |queue|) events, in waiting order, and nothing else                *)
+(* 5. notify(n) sets the first min(n, |queue|) events of ITS condition, in waiting order, and nothing else *)
 (* ---------------------------------------------------------------------------------------------------- *)
 Definition resolved (v : fstate) : fstate := match v with FPending => FSet | _ => v end.
 
 Lemma setf_at ef e : setf ef e e = resolved (ef e).
 Proof. unfold setf, resolved. destruct (ef e) eqn:E; [apply upd_same|exact E|exact E]. Qed.
 
-Lemma notify_loop_spec n : forall s, EvInv s ->
-  let k := Nat.min n (length (cwaiters s)) in
-  let woken := firstn k (cwaiters s) in
-  cwaiters (notify_loop n s) = skipn k (cwaiters s) /\
-  setlog (notify_loop n s) = setlog s ++ woken /\
-  inflight (notify_loop n s) = inflight s ++ woken /\
-  (forall e, eset (notify_loop n s) e = true <-> eset s e = true \/ In e woken) /\
-  (forall e, In e woken -> efut (notify_loop n s) e = resolved (efut s e)) /\
-  (forall e, ~ In e woken -> efut (notify_loop n s) e = efut s e) /\
-  issued (notify_loop n s) = issued s + k /\
-  consumed (notify_loop n s) = consumed s /\ dropped (notify_loop n s) = dropped s /\
-  lost (notify_loop n s) = lost s /\ nev (notify_loop n s) = nev s /\ cenq (notify_loop n s) = cenq s.
+Lemma notify_loop_spec n c hz : forall s, EvInv s ->
+  let k := Nat.min n (length (cwaiters s c)) in
+  let woken := firstn k (cwaiters s c) in
+  cwaiters (notify_loop n c hz s) c = skipn k (cwaiters s c) /\
+  (forall c', c' <> c -> cwaiters (notify_loop n c hz s) c' = cwaiters s c') /\
+  setlog (notify_loop n c hz s) = setlog s ++ woken /\
+  inflight (notify_loop n c hz s) = inflight s ++ woken /\
+  (forall e, eset (notify_loop n c hz s) e = true <-> eset s e = true \/ In e woken) /\
+  (forall e, In e woken -> efut (notify_loop n c hz s) e = resolved (efut s e)) /\
+  (forall e, ~ In e woken -> efut (notify_loop n c hz s) e = efut s e) /\
+  (forall e, In e woken -> horizon (notify_loop n c hz s) e = hz) /\
+  (forall e, ~ In e woken -> horizon (notify_loop n c hz s) e = horizon s e) /\
+  issued (notify_loop n c hz s) = issued s + k /\
+  consumed (notify_loop n c hz s) = consumed s /\ dropped (notify_loop n c hz s) = dropped s /\
+  lost (notify_loop n c hz s) = lost s /\ nev (notify_loop n c hz s) = nev s /\
+  cenq (notify_loop n c hz s) = cenq s /\ nlog (notify_loop n c hz s) = nlog s.
 Proof.
   induction n as [|m IH]; intros s V; cbn [notify_loop].
-  - cbn. rewrite !app_nil_r. repeat split; auto; try lia. intros [H|[]]; exact H.
-  - destruct (cwaiters s) as [|e r] eqn:Ecw.
-    + cbn. rewrite !app_nil_r. repeat split; auto; try lia; try (intros [H|[]]; exact H).
-    + destruct V as [V C]. rewrite Ecw in V.
-      destruct (V_q _ _ _ _ _ _ _ _ V e (or_introl eq_refl)) as (Hes & _).
-      pose proof (V_qnd _ _ _ _ _ _ _ _ V) as Hnd. inversion Hnd as [|a b Her Hr]; subst.
-      rewrite (do_set_unset (with_cw s r) e) by (cnorm; exact Hes). cnorm.
-      match goal with |- context [notify_loop m ?x] => set (s2 := x) end.
+  - cbn. rewrite !app_nil_r. repeat split; auto; try lia; try (intros [H|[]]; exact H); try (intros e []).
+  - destruct (cwaiters s c) as [|e r] eqn:Ecw.
+    + cbn. rewrite !app_nil_r. repeat split; auto; try lia; try (intros [H|[]]; exact H); try (intros e []).
+    + destruct V as [V C].
+      assert (Hin : In e (cwaiters s c)) by (rewrite Ecw; now left).
+      destruct (V_q _ _ _ _ _ _ _ _ V c e Hin) as (Hes & _).
+      pose proof (V_qnd _ _ _ _ _ _ _ _ V c) as Hnd. rewrite Ecw in Hnd.
+      inversion Hnd as [|a b Her Hr]; subst.
+      rewrite (do_set_unset (with_cw s c r) e hz) by (cnorm; exact Hes). cnorm.
+      match goal with |- context [notify_loop m c hz ?x] => set (s2 := x) end.
       assert (V2 : EvInv s2).
-      { unfold EvInv, s2. cnorm. split; [apply S_set_head, V|]. rewrite app_length. cbn. lia. }
-      destruct (IH s2 V2) as (I1 & I2 & I3 & I4 & I5 & I6 & I7 & I8 & I9 & I10 & I11 & I12).
-      unfold s2 in I1, I2, I3, I4, I5, I6, I7, I8, I9, I10, I11, I12. cbn [length Nat.min firstn skipn].
-      revert I1 I2 I3 I4 I5 I6 I7 I8 I9 I10 I11 I12. cnorm. fold s2.
-      set (k' := Nat.min m (length r)). intros I1 I2 I3 I4 I5 I6 I7 I8 I9 I10 I11 I12.
+      { unfold EvInv, s2. cnorm. split; [apply S_set_head; assumption|]. rewrite app_length. cbn. lia. }
+      destruct (IH s2 V2) as (I1 & I1' & I2 & I3 & I4 & I5 & I6 & I6' & I6'' & I7 & I8 & I9 & I10 & I11 & I12 & I13).
+      unfold s2 in I1, I1', I2, I3, I4, I5, I6, I6', I6'', I7, I8, I9, I10, I11, I12, I13.
+      cbn [length Nat.min firstn skipn].
+      revert I1 I1' I2 I3 I4 I5 I6 I6' I6'' I7 I8 I9 I10 I11 I12 I13. cnorm. fold s2. rewrite upd_same.
+      set (k' := Nat.min m (length r)). intros I1 I1' I2 I3 I4 I5 I6 I6' I6'' I7 I8 I9 I10 I11 I12 I13.
       assert (Hnin : ~ In e (firstn k' r)).
       { intros H. apply Her. eapply subseq_in; [|exact H].
         rewrite <- (firstn_skipn k' r) at 2. clear. induction (firstn k' r); cbn;
           [apply subseq_nil_l|apply ss_take; assumption]. }
-      refine (conj I1 (conj _ (conj _ (conj _ (conj _ (conj _ (conj _ (conj I8 (conj I9 (conj I10 (conj I11 I12))))))))))).
+      refine (conj I1 (conj _ (conj _ (conj _ (conj _ (conj _ (conj _ (conj _ (conj _ (conj _
+               (conj I8 (conj I9 (conj I10 (conj I11 (conj I12 I13))))))))))))))).
+      * intros c' Hc'. rewrite I1' by assumption. now apply upd_other.
       * rewrite I2, <- app_assoc. reflexivity.
       * rewrite I3, <- app_assoc. reflexivity.
       * intros x. rewrite I4. cbn [In]. destruct (Nat.eq_dec x e) as [->|Hne].
@@ -389,17 +402,29 @@ Proof.
            rewrite F2; [reflexivity|]. intros ->. contradiction.
       * intros x Hx. cbn [In] in Hx. rewrite I6 by tauto.
         destruct (setf_spec (efut s) e) as (_ & F2 & _). apply F2. intros ->. apply Hx. now left.
+      * intros x [<-|Hx]; [|now apply I6'].
+        rewrite I6'' by exact Hnin. apply upd_same.
+      * intros x Hx. cbn [In] in Hx. rewrite I6'' by tauto. apply upd_other. intros ->. apply Hx. now left.
       * rewrite I7. lia.
 Qed.
 
-Theorem cond_notify_at_most_n_fifo fa s t n s' :
-  creach fa s -> cstep s (CNotify t n) = (s', RDone) ->
-  let k := Nat.min n (length (cwaiters s)) in
-  let woken := firstn k (cwaiters s) in
+Lemma head_check_iff fa s c t :
+  creach fa s -> cphase_of s t = PIdle -> (holder_check s c t = true <-> In t (held (lk s))).
+Proof.
+  intros R Hp. destruct (creach_inv fa s R) as [P K V]. unfold holder_check. rewrite P.
+  rewrite tid_eqb_opt_true. apply (owner_iff_held _ _ _ K Hp).
+Qed.
+
+Theorem cond_notify_at_most_n_fifo fa s c t n s' :
+  creach fa s -> cstep s (CNotify c t n) = (s', RDone) ->
+  let k := Nat.min n (length (cwaiters s c)) in
+  let woken := firstn k (cwaiters s c) in
   (* at most n, and all of them if fewer wait *)
   length woken = k /\ k <= n /\
-  (* the woken ones are the first k of the queue, which is in arrival order; the others stay queued *)
-  cwaiters s = woken ++ cwaiters s' /\ subseq (cwaiters s) (cenq s) /\
+  (* the woken ones are the first k of this condition's queue, which is in arrival order; the others stay
+     queued; waiters of other conditions on the same lock are not touched *)
+  cwaiters s c = woken ++ cwaiters s' c /\ subseq (cwaiters s c) (cenq s) /\
+  (forall c', c' <> c -> cwaiters s' c' = cwaiters s c') /\
   setlog s' = setlog s ++ woken /\
   (* nothing else is set or resolved *)
   (forall e, eset s' e = true <-> eset s e = true \/ In e woken) /\
@@ -407,75 +432,80 @@ Theorem cond_notify_at_most_n_fifo fa s t n s' :
   (forall e, ~ In e woken -> efut s' e = efut s e) /\
   issued s' = issued s + k /\
   (* the caller keeps the lock and nobody's phase changes *)
-  lk s' = lk s /\ owner_rec s' = owner_rec s /\ cphase_of s' = cphase_of s.
+  lk s' = lk s /\ cphase_of s' = cphase_of s.
 Proof.
   intros R E k woken. destruct (creach_inv fa s R) as [P K V].
   revert E. cbn [cstep]. destruct (negb _); [discriminate|].
-  destruct (tid_eqb_opt (owner_rec s) t); [|discriminate]. intros [= <-].
-  destruct (notify_loop_spec n s V) as (I1 & I2 & I3 & I4 & I5 & I6 & I7 & _).
-  destruct (notify_loop_proj n s) as (P1 & P2 & P3 & _).
+  destruct (holder_check s c t); [|discriminate]. intros [= <-].
+  assert (V0 : EvInv (with_nlog s (nlog s ++ [nev s]))) by exact V.
+  destruct (notify_loop_spec n c (nev s) _ V0) as (I1 & I1' & I2 & I3 & I4 & I5 & I6 & _ & _ & I7 & _).
+  destruct (do_notify_proj s c n) as (P1 & P3 & _). cnorm in *.
   fold k in I1, I2, I3, I4, I5, I6, I7. fold woken in I2, I3, I4, I5, I6.
-  assert (Hk : k <= length (cwaiters s)) by (unfold k; lia).
-  refine (conj _ (conj _ (conj _ (conj _ (conj I2 (conj I4 (conj I5 (conj I6 (conj I7 (conj P1 (conj P2 P3))))))))))).
+  assert (Hk : k <= length (cwaiters s c)) by (unfold k; lia).
+  refine (conj _ (conj _ (conj _ (conj _ (conj I1' (conj I2 (conj I4 (conj I5 (conj I6 (conj I7 (conj P1 P3))))))))))).
   - unfold woken. now apply firstn_length_le.
   - unfold k; lia.
-  - rewrite I1. unfold woken. symmetry. apply firstn_skipn.
+  - unfold do_notify. rewrite I1. unfold woken. symmetry. apply firstn_skipn.
   - destruct V as [V _]. apply (V_fifo _ _ _ _ _ _ _ _ V).
 Qed.
 
-Theorem cond_notify_all_wakes_everyone fa s t s' :
-  creach fa s -> cstep s (CNotifyAll t) = (s', RDone) ->
-  cwaiters s' = [] /\ setlog s' = setlog s ++ cwaiters s /\
-  (forall e, eset s' e = true <-> eset s e = true \/ In e (cwaiters s)) /\
-  (forall e, In e (cwaiters s) -> efut s' e = resolved (efut s e)) /\
-  (forall e, ~ In e (cwaiters s) -> efut s' e = efut s e) /\
-  issued s' = issued s + length (cwaiters s) /\ lk s' = lk s /\ cphase_of s' = cphase_of s.
+Theorem cond_notify_all_wakes_everyone fa s c t s' :
+  creach fa s -> cstep s (CNotifyAll c t) = (s', RDone) ->
+  cwaiters s' c = [] /\ (forall c', c' <> c -> cwaiters s' c' = cwaiters s c') /\
+  setlog s' = setlog s ++ cwaiters s c /\
+  (forall e, eset s' e = true <-> eset s e = true \/ In e (cwaiters s c)) /\
+  (forall e, In e (cwaiters s c) -> efut s' e = resolved (efut s e)) /\
+  (forall e, ~ In e (cwaiters s c) -> efut s' e = efut s e) /\
+  issued s' = issued s + length (cwaiters s c) /\ lk s' = lk s /\ cphase_of s' = cphase_of s.
 Proof.
   intros R E. destruct (creach_inv fa s R) as [P K V].
   revert E. cbn [cstep]. destruct (negb _); [discriminate|].
-  destruct (tid_eqb_opt (owner_rec s) t); [|discriminate]. intros [= <-].
-  destruct (notify_loop_spec (length (cwaiters s)) s V) as (I1 & I2 & I3 & I4 & I5 & I6 & I7 & _).
-  destruct (notify_loop_proj (length (cwaiters s)) s) as (P1 & P2 & P3 & _).
+  destruct (holder_check s c t); [|discriminate]. intros [= <-].
+  assert (V0 : EvInv (with_nlog s (nlog s ++ [nev s]))) by exact V.
+  destruct (notify_loop_spec (length (cwaiters s c)) c (nev s) _ V0)
+    as (I1 & I1' & I2 & I3 & I4 & I5 & I6 & _ & _ & I7 & _).
+  destruct (do_notify_proj s c (length (cwaiters s c))) as (P1 & P3 & _). cnorm in *.
   rewrite Nat.min_id in *. rewrite firstn_all in *. rewrite skipn_all in I1.
-  refine (conj I1 (conj I2 (conj I4 (conj I5 (conj I6 (conj I7 (conj P1 P3))))))).
+  refine (conj I1 (conj I1' (conj I2 (conj I4 (conj I5 (conj I6 (conj I7 (conj P1 P3)))))))).
 Qed.
 
 (* ---------------------------------------------------------------------------------------------------- *)
 (* 6. a notified waiter that is interrupted before acting hands the notification to the head of the queue *)
 (* ---------------------------------------------------------------------------------------------------- *)
-Lemma wait_interrupted_passon s e h q :
-  eset s e = true -> cwaiters s = h :: q -> eset s h = false ->
-  wait_interrupted s e =
-    cmk (pinned s) (lk s) (owner_rec s) q (upd (eset s) h true) (setf (efut s) h) (nev s) (cphase_of s)
-        (cenq s) (setlog s ++ [h]) (remove_first e (inflight s) ++ [h]) (issued s) (consumed s) (dropped s)
-        (lost s).
+Lemma wait_interrupted_passon s c e h q :
+  eset s e = true -> cwaiters s c = h :: q -> eset s h = false ->
+  wait_interrupted s c e =
+    cmk (variant s) (lk s) (owner_rec s) (upd (cwaiters s) c q) (upd (eset s) h true) (setf (efut s) h) (nev s)
+        (cphase_of s) (cenq s) (setlog s ++ [h]) (remove_first e (inflight s) ++ [h])
+        (upd (horizon s) h (horizon s e)) (nlog s) (issued s) (consumed s) (dropped s) (lost s).
 Proof.
   intros H1 H2 H3. unfold wait_interrupted. rewrite H1, H2.
-  rewrite (do_set_unset (with_cw s q) h) by (cnorm; exact H3). reflexivity.
+  rewrite (do_set_unset (with_cw s c q) h (horizon s e)) by (cnorm; exact H3). reflexivity.
 Qed.
 
-Lemma wait_interrupted_nobody s e :
-  eset s e = true -> cwaiters s = [] ->
-  wait_interrupted s e =
+Lemma wait_interrupted_nobody s c e :
+  eset s e = true -> cwaiters s c = [] ->
+  wait_interrupted s c e =
     with_counts (with_inflight s (remove_first e (inflight s))) (issued s) (consumed s) (S (dropped s)) (lost s).
 Proof. intros H1 H2. unfold wait_interrupted. now rewrite H1, H2. Qed.
 
-Lemma finish_wait_exc_counts s t e l' r :
-  consumed (fst (finish_wait s t e true l' r)) = consumed s /\
-  dropped (fst (finish_wait s t e true l' r)) = dropped s /\
-  lost (fst (finish_wait s t e true l' r)) = lost s.
+Lemma finish_wait_exc_counts s t c e l' r :
+  consumed (fst (finish_wait s t c e true l' r)) = consumed s /\
+  dropped (fst (finish_wait s t c e true l' r)) = dropped s /\
+  lost (fst (finish_wait s t c e true l' r)) = lost s.
 Proof. destruct r; cbn; auto. Qed.
 
 (* the resumption of an interrupted waiter whose event is set: which state finish_wait is applied to *)
-Lemma resume_interrupted fa s t e s' res :
-  creach fa s -> cphase_of s t = PWait e -> eset s e = true ->
+Lemma resume_interrupted fa s t c e s' res :
+  creach fa s -> cphase_of s t = PWait c e -> eset s e = true ->
   (efut s e = FCancelled \/ mustc (lk s) t = true) ->
   cstep s (CResume t) = (s', res) ->
-  exists l' r, finish_wait (wait_interrupted (with_lk s (set_mustc (lk s) t false)) e) t e true l' r = (s', res).
+  exists l' r,
+    finish_wait (wait_interrupted (with_lk s (set_mustc (lk s) t false)) c e) t c e true l' r = (s', res).
 Proof.
   intros R Ep Hes Hint E. destruct (creach_inv fa s R) as [P K [V C]].
-  assert (Hpv : pv (cphase_of s t) = Some (e, false)) by (now apply pv_wait).
-  destruct (V_wait1 _ _ _ _ _ _ _ _ V t e Hpv Hes) as [Hnp _].
+  assert (Hpv : pv (cphase_of s t) = Some (c, e, false)) by (now apply pv_wait).
+  destruct (V_wait1 _ _ _ _ _ _ _ _ V t c e Hpv Hes) as [Hnp _].
   revert E. cbn [cstep]. rewrite Ep. destruct (efut s e) eqn:Ef; [contradiction| |].
   - destruct Hint as [Hint|Hint]; [discriminate|]. rewrite Hint.
     match goal with |- context [Lock.step ?L ?o] => destruct (Lock.step L o) as [l' r] end.
@@ -484,45 +514,47 @@ Proof.
     intros E. now exists l', r.
 Qed.
 
-Theorem cond_notification_passed_on fa s t e h q s' res :
-  creach fa s -> cphase_of s t = PWait e -> eset s e = true ->
+Theorem cond_notification_passed_on fa s t c e h q s' res :
+  creach fa s -> cphase_of s t = PWait c e -> eset s e = true ->
   (efut s e = FCancelled \/ mustc (lk s) t = true) ->          (* cancelled before or after the notification *)
-  cwaiters s = h :: q ->
+  cwaiters s c = h :: q ->
   cstep s (CResume t) = (s', res) ->
   res <> RDone /\
-  cwaiters s' = q /\ eset s' h = true /\ efut s' h = resolved (efut s h) /\ setlog s' = setlog s ++ [h] /\
-  (exists th, th <> t /\ cphase_of s th = PWait h /\ cphase_of s' th = PWait h) /\
+  cwaiters s' c = q /\ (forall c', c' <> c -> cwaiters s' c' = cwaiters s c') /\
+  eset s' h = true /\ efut s' h = resolved (efut s h) /\ setlog s' = setlog s ++ [h] /\
+  horizon s' h = horizon s e /\
+  (exists th, th <> t /\ cphase_of s th = PWait c h /\ cphase_of s' th = PWait c h) /\
   In h (inflight s') /\ ~ In e (inflight s') /\ length (inflight s') = length (inflight s) /\
   issued s' = issued s /\ consumed s' = consumed s /\ dropped s' = dropped s /\ lost s' = lost s.
 Proof.
   intros R Ep Hes Hint Ecw E. destruct (creach_inv fa s R) as [P K [V C]].
-  assert (Hpv : pv (cphase_of s t) = Some (e, false)) by (now apply pv_wait).
-  destruct (V_wait1 _ _ _ _ _ _ _ _ V t e Hpv Hes) as [_ Hin].
-  assert (Hh : In h (cwaiters s)) by (rewrite Ecw; now left).
-  destruct (V_q _ _ _ _ _ _ _ _ V h Hh) as (Hesh & th & Hth).
+  assert (Hpv : pv (cphase_of s t) = Some (c, e, false)) by (now apply pv_wait).
+  destruct (V_wait1 _ _ _ _ _ _ _ _ V t c e Hpv Hes) as [_ Hin].
+  assert (Hh : In h (cwaiters s c)) by (rewrite Ecw; now left).
+  destruct (V_q _ _ _ _ _ _ _ _ V c h Hh) as (Hesh & th & Hth).
   assert (Hne : h <> e) by congruence.
-  destruct (resume_interrupted fa s t e s' res R Ep Hes Hint E) as (l' & r & Ef).
-  rewrite (wait_interrupted_passon (with_lk s (set_mustc (lk s) t false)) e h q) in Ef by (cnorm; assumption).
+  destruct (resume_interrupted fa s t c e s' res R Ep Hes Hint E) as (l' & r & Ef).
+  rewrite (wait_interrupted_passon (with_lk s (set_mustc (lk s) t false)) c e h q) in Ef by (cnorm; assumption).
   cnorm in Ef.
-  pose proof (finish_wait_res _ _ _ _ _ _ _ _ Ef) as Hres.
-  assert (Es' : s' = fst (finish_wait
-     (cmk (pinned s) (set_mustc (lk s) t false) (owner_rec s) q (upd (eset s) h true) (setf (efut s) h) (nev s)
-          (cphase_of s) (cenq s) (setlog s ++ [h]) (remove_first e (inflight s) ++ [h]) (issued s) (consumed s)
-          (dropped s) (lost s)) t e true l' r)) by (now rewrite Ef).
-  match type of Es' with _ = fst (finish_wait ?S1 _ _ _ _ _) =>
-    destruct (finish_wait_ev S1 t e true l' r) as (F1 & F2 & F3 & _ & _ & F6 & F7 & F8 & _);
-    destruct (finish_wait_exc_counts S1 t e l' r) as (G1 & G2 & G3);
-    destruct (finish_wait_proj S1 t e true l' r) as (_ & _ & _ & F4)
+  pose proof (finish_wait_res _ _ _ _ _ _ _ _ _ Ef) as Hres.
+  match type of Ef with finish_wait ?S1 _ _ _ _ _ _ = _ =>
+    assert (Es' : s' = fst (finish_wait S1 t c e true l' r)) by (now rewrite Ef);
+    destruct (finish_wait_ev S1 t c e true l' r) as (F1 & F2 & F3 & _ & _ & F6 & F7 & F8 & _ & F9 & _);
+    destruct (finish_wait_exc_counts S1 t c e l' r) as (G1 & G2 & G3);
+    destruct (finish_wait_proj S1 t c e true l' r) as (_ & _ & F4)
   end.
-  rewrite <- Es' in F1, F2, F3, F4, F6, F7, F8, G1, G2, G3. cnorm in *.
+  rewrite <- Es' in F1, F2, F3, F4, F6, F7, F8, F9, G1, G2, G3. cnorm in *.
   assert (Hth' : th <> t).
   { intros ->. rewrite Hpv in Hth. congruence. }
   apply pv_wait in Hth.
-  refine (conj _ (conj F1 (conj _ (conj _ (conj F6 (conj _ (conj _ (conj _ (conj _
-           (conj F8 (conj G1 (conj G2 G3)))))))))))).
+  refine (conj _ (conj _ (conj _ (conj _ (conj _ (conj F6 (conj _ (conj _ (conj _ (conj _ (conj _
+           (conj F8 (conj G1 (conj G2 G3)))))))))))))).
   - rewrite Hres. destruct r; discriminate.
+  - rewrite F1. apply upd_same.
+  - intros c' Hc'. rewrite F1. now apply upd_other.
   - rewrite F2. apply upd_same.
   - rewrite F3. apply setf_at.
+  - rewrite F9. apply upd_same.
   - exists th. refine (conj Hth' (conj Hth _)). rewrite F4. now rewrite upd_other.
   - rewrite F7. apply in_or_app. right. now left.
   - rewrite F7. intros H. apply in_app_or in H. destruct H as [H|[H|[]]]; [|congruence].
@@ -531,30 +563,29 @@ Proof.
 Qed.
 
 (* ... and when nobody is left in the queue the notification is handed to nobody (counted in `dropped`) *)
-Theorem cond_notification_passed_on_to_nobody fa s t e s' res :
-  creach fa s -> cphase_of s t = PWait e -> eset s e = true ->
-  (efut s e = FCancelled \/ mustc (lk s) t = true) -> cwaiters s = [] ->
+Theorem cond_notification_passed_on_to_nobody fa s t c e s' res :
+  creach fa s -> cphase_of s t = PWait c e -> eset s e = true ->
+  (efut s e = FCancelled \/ mustc (lk s) t = true) -> cwaiters s c = [] ->
   cstep s (CResume t) = (s', res) ->
-  res <> RDone /\ cwaiters s' = [] /\ dropped s' = S (dropped s) /\
+  res <> RDone /\ cwaiters s' = cwaiters s /\ dropped s' = S (dropped s) /\
   S (length (inflight s')) = length (inflight s) /\
   issued s' = issued s /\ consumed s' = consumed s /\ lost s' = lost s.
 Proof.
   intros R Ep Hes Hint Ecw E. destruct (creach_inv fa s R) as [P K [V C]].
-  assert (Hpv : pv (cphase_of s t) = Some (e, false)) by (now apply pv_wait).
-  destruct (V_wait1 _ _ _ _ _ _ _ _ V t e Hpv Hes) as [_ Hin].
-  destruct (resume_interrupted fa s t e s' res R Ep Hes Hint E) as (l' & r & Ef).
-  rewrite (wait_interrupted_nobody (with_lk s (set_mustc (lk s) t false)) e) in Ef by (cnorm; assumption).
+  assert (Hpv : pv (cphase_of s t) = Some (c, e, false)) by (now apply pv_wait).
+  destruct (V_wait1 _ _ _ _ _ _ _ _ V t c e Hpv Hes) as [_ Hin].
+  destruct (resume_interrupted fa s t c e s' res R Ep Hes Hint E) as (l' & r & Ef).
+  rewrite (wait_interrupted_nobody (with_lk s (set_mustc (lk s) t false)) c e) in Ef by (cnorm; assumption).
   cnorm in Ef.
-  pose proof (finish_wait_res _ _ _ _ _ _ _ _ Ef) as Hres.
-  match type of Ef with finish_wait ?S1 _ _ _ _ _ = _ =>
-    assert (Es' : s' = fst (finish_wait S1 t e true l' r)) by (now rewrite Ef);
-    destruct (finish_wait_ev S1 t e true l' r) as (F1 & _ & _ & _ & _ & _ & F7 & F8 & _);
-    destruct (finish_wait_exc_counts S1 t e l' r) as (G1 & G2 & G3)
+  pose proof (finish_wait_res _ _ _ _ _ _ _ _ _ Ef) as Hres.
+  match type of Ef with finish_wait ?S1 _ _ _ _ _ _ = _ =>
+    assert (Es' : s' = fst (finish_wait S1 t c e true l' r)) by (now rewrite Ef);
+    destruct (finish_wait_ev S1 t c e true l' r) as (F1 & _ & _ & _ & _ & _ & F7 & F8 & _);
+    destruct (finish_wait_exc_counts S1 t c e l' r) as (G1 & G2 & G3)
   end.
   rewrite <- Es' in F1, F7, F8, G1, G2, G3. cnorm in *.
-  refine (conj _ (conj _ (conj G2 (conj _ (conj F8 (conj G1 G3)))))).
+  refine (conj _ (conj F1 (conj G2 (conj _ (conj F8 (conj G1 G3)))))).
   - rewrite Hres. destruct r; discriminate.
-  - now rewrite F1.
   - rewrite F7. apply remove_first_length, Hin.
 Qed.
 
@@ -568,47 +599,55 @@ Proof. intros R. destruct (creach_inv fa s R) as [_ _ [_ C]]. exact C. Qed.
 Theorem cond_inflight_characterised fa s e :
   creach fa s ->
   (In e (inflight s) <->
-   eset s e = true /\ exists t, cphase_of s t = PWait e \/ cphase_of s t = PReacq e false).
+   eset s e = true /\ exists t c, cphase_of s t = PWait c e \/ cphase_of s t = PReacq c e false).
 Proof.
   intros R. destruct (creach_inv fa s R) as [_ _ [V _]]. split.
-  - intros H. destruct (V_infl _ _ _ _ _ _ _ _ V e H) as (H1 & t & b & Ht). split; [exact H1|].
-    exists t. destruct b; [right; now apply pv_reacq|left; now apply pv_wait].
-  - intros (H1 & t & [Ht|Ht]).
-    + apply (V_wait1 _ _ _ _ _ _ _ _ V t e); [now apply pv_wait|exact H1].
-    + apply (V_reacq _ _ _ _ _ _ _ _ V t e). now apply pv_reacq.
+  - intros H. destruct (V_infl _ _ _ _ _ _ _ _ V e H) as (H1 & t & c & b & Ht). split; [exact H1|].
+    exists t, c. destruct b; [right; now apply pv_reacq|left; now apply pv_wait].
+  - intros (H1 & t & c & [Ht|Ht]).
+    + apply (V_wait1 _ _ _ _ _ _ _ _ V t c e); [now apply pv_wait|exact H1].
+    + apply (V_reacq _ _ _ _ _ _ _ _ V t c e). now apply pv_reacq.
 Qed.
+
+Lemma acquire_begin_lost s oc t o : lost (fst (acquire_begin s oc t o)) = lost s.
+Proof. unfold acquire_begin. destruct (Lock.step _ _) as [l' r]. destruct r; reflexivity. Qed.
 
 Lemma cstep_lost_clean s o :
   CInv s -> QInv s -> native_reacq s o = false -> lost (fst (cstep s o)) = lost s.
 Proof.
   intros CI Q Hn.
-  assert (Hwait : forall t, (exists e, cphase_of s t = PWait e \/ exists x, cphase_of s t = PReacq e x) ->
+  assert (Hwait : forall t, (exists c e, cphase_of s t = PWait c e \/ exists x, cphase_of s t = PReacq c e x) ->
                   lost (fst (cstep s (CResume t))) = lost s).
   { intros t Hph. destruct (cstep s (CResume t)) as [s' res] eqn:E. cbn [fst].
     destruct (resume_in_wait s t s' res CI Hph E)
-      as [[_ ->]|(s1 & e & exc & l' & r & Ef & I' & Po & (Hl & _) & Hes & Hp & Hr)]; [reflexivity|].
-    replace s' with (fst (finish_wait s1 t e exc l' r)) by (now rewrite Ef). rewrite <- Hl.
+      as [[_ ->]|(s1 & c & e & exc & l' & r & Ef & I' & (Hl & _) & Hes & Hp & Hr)]; [reflexivity|].
+    replace s' with (fst (finish_wait s1 t c e exc l' r)) by (now rewrite Ef). rewrite <- Hl.
     destruct r; try contradiction; try (destruct exc; reflexivity).
-    destruct Hr as (e0 & x0 & He0 & Hnok). exfalso. apply Hnok. eapply Q; eauto. }
-  destruct o as [t|t|t|t n|t|t|t|t|t]; cbn [cstep].
+    destruct Hr as (c0 & e0 & x0 & He0 & Hnok). exfalso. apply Hnok. eapply Q; eauto. }
+  destruct o as [c t|c t|c t|c t n|c t|c t|t|t|t|t|t|t]; cbn [cstep].
+  - destruct (negb _); [reflexivity|]. apply acquire_begin_lost.
+  - destruct (negb _); [reflexivity|]. apply acquire_begin_lost.
   - destruct (negb _); [reflexivity|]. destruct (Lock.step _ _) as [l' r]. destruct r; reflexivity.
-  - destruct (negb _); [reflexivity|]. destruct (Lock.step _ _) as [l' r]. destruct r; reflexivity.
-  - destruct (negb _); [reflexivity|]. destruct (Lock.step _ _) as [l' r]. destruct r; reflexivity.
-  - destruct (negb _); [reflexivity|]. destruct (tid_eqb_opt _ _); [|reflexivity].
-    destruct CI as [_ _ V]. apply (notify_loop_spec n s V).
-  - destruct (negb _); [reflexivity|]. destruct (tid_eqb_opt _ _); [|reflexivity].
-    destruct CI as [_ _ V]. apply (notify_loop_spec (length (cwaiters s)) s V).
-  - destruct (negb _); [reflexivity|]. destruct (tid_eqb_opt _ _); [|reflexivity].
+  - destruct (negb _); [reflexivity|]. destruct (holder_check _ _ _); [|reflexivity].
+    destruct CI as [_ _ V]. assert (V0 : EvInv (with_nlog s (nlog s ++ [nev s]))) by exact V.
+    apply (notify_loop_spec n c (nev s) _ V0).
+  - destruct (negb _); [reflexivity|]. destruct (holder_check _ _ _); [|reflexivity].
+    destruct CI as [_ _ V]. assert (V0 : EvInv (with_nlog s (nlog s ++ [nev s]))) by exact V.
+    apply (notify_loop_spec (length (cwaiters s c)) c (nev s) _ V0).
+  - destruct (negb _); [reflexivity|]. destruct (holder_check _ _ _); [|reflexivity].
     destruct (Lock.step _ _) as [l' r]. destruct r; reflexivity.
-  - destruct (cphase_of s t) as [| |e|e exc] eqn:Ep; [reflexivity| | |].
+  - destruct (negb _); [reflexivity|]. apply acquire_begin_lost.
+  - destruct (negb _); [reflexivity|]. apply acquire_begin_lost.
+  - destruct (negb _); [reflexivity|]. destruct (Lock.step _ _) as [l' r]. reflexivity.
+  - destruct (cphase_of s t) as [|oc|c e|c e exc] eqn:Ep; [reflexivity| | |].
     + destruct (Lock.step _ _) as [l' r]. destruct r; reflexivity.
     + specialize (Hwait t). cbn [cstep] in Hwait. rewrite Ep in Hwait. apply Hwait. eauto.
     + specialize (Hwait t). cbn [cstep] in Hwait. rewrite Ep in Hwait. apply Hwait. eauto.
-  - destruct (cphase_of s t) as [| |e|e exc]; [reflexivity| | |].
+  - destruct (cphase_of s t) as [|oc|c e|c e exc]; [reflexivity| | |].
     + destruct (Lock.step _ _) as [l' r]. reflexivity.
     + destruct (efut s e); reflexivity.
     + destruct (Lock.step _ _) as [l' r]. reflexivity.
-  - destruct (cphase_of s t) as [| |e|e exc]; [reflexivity| | |reflexivity].
+  - destruct (cphase_of s t) as [|oc|c e|c e exc]; [reflexivity| | |reflexivity].
     + destruct (phase_of (lk s) t); try reflexivity. destruct (futs _ _); try reflexivity.
       destruct (Lock.step _ _) as [l' r]. reflexivity.
     + destruct (efut s e); reflexivity.
@@ -632,221 +671,374 @@ Proof.
 Qed.
 
 (* ---------------------------------------------------------------------------------------------------- *)
-(* 7. wait / notify / notify_all are refused unless the caller holds the lock - and then change nothing  *)
+(* 7. wait / notify / notify_all on ANY condition of the lock are refused iff the caller does not hold   *)
+(*    the lock - however it was acquired (this condition, a sibling condition, the lock itself) - and a  *)
+(*    refused call changes nothing                                                                       *)
 (* ---------------------------------------------------------------------------------------------------- *)
-Theorem cond_requires_holder fa s t :
-  creach fa s -> cphase_of s t = PIdle -> ~ In t (held (lk s)) ->
-  cstep s (CWait t) = (s, RRuntime) /\ (forall n, cstep s (CNotify t n) = (s, RRuntime)) /\
-  cstep s (CNotifyAll t) = (s, RRuntime).
+(* `In t (held (lk s))`: some acquire - lock.acquire(), lock.acquire_nowait(), the same through any condition,
+   or the re-acquire at the end of a wait() - returned to t and t has not released (by any route) since *)
+Theorem cond_holder_is_lock_owner fa s t :
+  creach fa s -> cphase_of s t = PIdle -> (In t (held (lk s)) <-> owner (lk s) = Some t).
 Proof.
-  intros R Hp Hn. destruct (creach_inv fa s R) as [P K V]. unfold LkInv in K.
-  assert (Ho : tid_eqb_opt (owner_rec s) t = false).
-  { destruct (tid_eqb_opt (owner_rec s) t) eqn:E; [|reflexivity].
-    apply tid_eqb_opt_true in E. apply (K_owner _ _ _ K) in E. contradiction. }
+  intros R Hp. destruct (creach_inv fa s R) as [P K V]. symmetry. apply (owner_iff_held _ _ _ K Hp).
+Qed.
+
+Theorem cond_requires_holder fa s c t :
+  creach fa s -> cphase_of s t = PIdle -> ~ In t (held (lk s)) ->
+  cstep s (CWait c t) = (s, RRuntime) /\ (forall n, cstep s (CNotify c t n) = (s, RRuntime)) /\
+  cstep s (CNotifyAll c t) = (s, RRuntime).
+Proof.
+  intros R Hp Hn.
+  assert (Ho : holder_check s c t = false).
+  { destruct (holder_check s c t) eqn:E; [|reflexivity]. apply (head_check_iff fa s c t R Hp) in E. contradiction. }
   cbn [cstep]. rewrite Hp, Ho. cbn. auto.
 Qed.
 
-(* the recorded owner is exactly the task to which acquire()/wait() returned and which has not released *)
-Theorem cond_owner_record_exact fa s t :
-  creach fa s -> (owner_rec s = Some t <-> In t (held (lk s))).
-Proof. intros R. destruct (creach_inv fa s R) as [P K V]. apply (K_owner _ _ _ K). Qed.
-
-Theorem cond_holder_accepted fa s t n :
+Theorem cond_holder_accepted fa s c t n :
   creach fa s -> In t (held (lk s)) ->
-  snd (cstep s (CNotify t n)) = RDone /\ snd (cstep s (CNotifyAll t)) = RDone /\
-  snd (cstep s (CWait t)) = RBlocked /\ cwaiters (fst (cstep s (CWait t))) = cwaiters s ++ [nev s] /\
-  ~ In t (held (lk (fst (cstep s (CWait t))))).
+  snd (cstep s (CNotify c t n)) = RDone /\ snd (cstep s (CNotifyAll c t)) = RDone /\
+  snd (cstep s (CWait c t)) = RBlocked /\
+  cwaiters (fst (cstep s (CWait c t))) c = cwaiters s c ++ [nev s] /\
+  cphase_of (fst (cstep s (CWait c t))) t = PWait c (nev s) /\
+  ~ In t (held (lk (fst (cstep s (CWait c t))))).
 Proof.
   intros R Hin. destruct (creach_inv fa s R) as [P K V]. unfold LkInv in K.
-  assert (Hp : cphase_of s t = PIdle) by (apply (K_heldidle _ _ _ K), Hin).
-  assert (Ho : tid_eqb_opt (owner_rec s) t = true).
-  { apply tid_eqb_opt_true. apply (K_owner _ _ _ K), Hin. }
-  assert (Hli : phase_of (lk s) t = Idle) by (apply (K_coupling _ _ _ K); rewrite Hp; reflexivity).
+  assert (Hp : cphase_of s t = PIdle) by (apply (K_heldidle _ _ K), Hin).
+  assert (Ho : holder_check s c t = true) by (apply (head_check_iff fa s c t R Hp), Hin).
+  assert (Hli : phase_of (lk s) t = Idle) by (apply (K_coupling _ _ K); rewrite Hp; reflexivity).
   cbn [cstep]. rewrite Hp, Ho. cbn [c_is_idle negb snd fst].
   refine (conj eq_refl (conj eq_refl _)).
   destruct (Lock.step (lk s) (Release t)) as [l' r] eqn:E.
-  pose proof (lstep_release_res _ t _ _ Hli E) as Rr.
-  destruct r; try contradiction.
-  - cbn. refine (conj eq_refl (conj eq_refl _)). destruct Rr as [_ ->].
-    destruct (do_release_fields (lk s) t) as (_ & _ & -> & _). intros H. apply in_remove_tid in H. tauto.
-  - destruct Rr as [_ Hno]. exfalso. apply Hno. apply (I_owner _ (K_lock _ _ _ K)). left. exact Hin.
+  pose proof (head_check_release s c t l' r P Ho Hli E) as ->.
+  pose proof (lstep_release_res _ t _ _ Hli E) as Rr. cbn in Rr. destruct Rr as [_ ->].
+  cbn. rewrite !upd_same. refine (conj eq_refl (conj eq_refl (conj eq_refl _))).
+  destruct (do_release_fields (lk s) t) as (_ & _ & -> & _). intros H. apply in_remove_tid in H. tauto.
+Qed.
+
+Theorem cond_refused_iff_not_holder fa s c t n :
+  creach fa s -> cphase_of s t = PIdle ->
+  (snd (cstep s (CWait c t)) = RRuntime <-> ~ In t (held (lk s))) /\
+  (snd (cstep s (CNotify c t n)) = RRuntime <-> ~ In t (held (lk s))) /\
+  (snd (cstep s (CNotifyAll c t)) = RRuntime <-> ~ In t (held (lk s))).
+Proof.
+  intros R Hp.
+  assert (G : forall o, (snd (cstep s o) = RRuntime <-> ~ In t (held (lk s))) \/ True) by (right; exact I).
+  destruct (in_dec Nat.eq_dec t (held (lk s))) as [Hin|Hn].
+  - destruct (cond_holder_accepted fa s c t n R Hin) as (H1 & H2 & H3 & _).
+    repeat split; intros H; try contradiction; congruence.
+  - destruct (cond_requires_holder fa s c t R Hp Hn) as (H1 & H2 & H3).
+    rewrite H1, (H2 n), H3. cbn. tauto.
 Qed.
 
 (* structural consequences of the invariant used by the clauses above *)
 (* every queued event belongs to a task that is really suspended in wait() on it: no stale entries that could
    swallow a notification *)
-Theorem cond_queue_has_live_waiters fa s e :
-  creach fa s -> In e (cwaiters s) ->
-  eset s e = false /\ efut s e <> FSet /\ exists t, cphase_of s t = PWait e.
+Theorem cond_queue_has_live_waiters fa s c e :
+  creach fa s -> In e (cwaiters s c) ->
+  eset s e = false /\ efut s e <> FSet /\ exists t, cphase_of s t = PWait c e.
 Proof.
   intros R H. destruct (creach_inv fa s R) as [_ _ [V _]].
-  destruct (V_q _ _ _ _ _ _ _ _ V e H) as (H1 & t & Ht).
-  destruct (V_wait0 _ _ _ _ _ _ _ _ V t e Ht H1) as [_ H2].
+  destruct (V_q _ _ _ _ _ _ _ _ V c e H) as (H1 & t & Ht).
+  destruct (V_wait0 _ _ _ _ _ _ _ _ V t c e Ht H1) as [_ H2].
   refine (conj H1 (conj H2 _)). exists t. now apply pv_wait.
 Qed.
 
 (* no lost wake-up: a notified waiter is runnable; no early/spurious wake-up: an un-notified waiter is resumed
    only by a cancellation, and then its wait() does not return normally *)
-Theorem cond_waiter_runnable_iff_notified_or_cancelled fa s t e :
-  creach fa s -> cphase_of s t = PWait e ->
+Theorem cond_waiter_runnable_iff_notified_or_cancelled fa s t c e :
+  creach fa s -> cphase_of s t = PWait c e ->
   (eset s e = true -> efut s e <> FPending /\ snd (cstep s (CResume t)) <> RRejected) /\
-  (eset s e = false -> In e (cwaiters s) /\
+  (eset s e = false -> In e (cwaiters s c) /\
      (efut s e = FPending /\ snd (cstep s (CResume t)) = RRejected \/
       efut s e = FCancelled /\ snd (cstep s (CResume t)) <> RDone)).
 Proof.
-  intros R Ep. pose proof (creach_inv fa s R) as CI. destruct CI as [P K [V C]].
-  assert (Hpv : pv (cphase_of s t) = Some (e, false)) by (now apply pv_wait).
-  assert (Hph : exists e, cphase_of s t = PWait e \/ exists x, cphase_of s t = PReacq e x) by eauto.
+  intros R Ep. pose proof (creach_inv fa s R) as CI. destruct CI as [P K [V C]]. unfold LkInv in K.
+  assert (Hpv : pv (cphase_of s t) = Some (c, e, false)) by (now apply pv_wait).
   split.
-  - intros Hes. destruct (V_wait1 _ _ _ _ _ _ _ _ V t e Hpv Hes) as [Hnp _]. split; [exact Hnp|].
+  - intros Hes. destruct (V_wait1 _ _ _ _ _ _ _ _ V t c e Hpv Hes) as [Hnp _]. split; [exact Hnp|].
     destruct (cstep s (CResume t)) as [s' res] eqn:E. cbn [snd]. intros ->.
-    revert E. cbn [cstep]. rewrite Ep. destruct (efut s e) eqn:Ef; [contradiction| |].
-    all: match goal with |- context [Lock.step ?L ?o] => destruct (Lock.step L o) as [l' r] eqn:El end.
-    all: intros E; pose proof (finish_wait_res _ _ _ _ _ _ _ _ E) as Hres.
-    all: assert (Hli : phase_of (set_mustc (lk s) t false) t = Idle)
-           by (apply (K_coupling _ _ _ (LK_mustc _ _ _ t false K)); rewrite Ep; reflexivity).
-    all: match type of El with Lock.step ?L _ = _ =>
-           assert (HL : L = set_mustc (lk s) t false)
-             by (try destruct (mustc (lk s) t);
-                 try (destruct (wait_interrupted_proj3 s t e) as (-> & _)); reflexivity) end.
-    all: rewrite HL in El; pose proof (lstep_acq_res _ t _ _ _ (or_introl eq_refl) Hli El) as Rr.
-    all: destruct r; try contradiction; try discriminate.
-    all: match type of Hres with _ = if ?b then _ else _ => destruct b; discriminate end.
-  - intros Hes. destruct (V_wait0 _ _ _ _ _ _ _ _ V t e Hpv Hes) as [Hin Hns]. split; [exact Hin|].
+    assert (Hph : exists c e, cphase_of s t = PWait c e \/ exists x, cphase_of s t = PReacq c e x) by eauto.
+    destruct (resume_in_wait s t s' RRejected (creach_inv fa s R) Hph E)
+      as [[_ ->]|(s1 & c0 & e0 & exc & l' & r & Ef & _ & _ & _ & _ & Hr)].
+    + (* state unchanged and rejected: only possible with a pending future *)
+      revert E. cbn [cstep]. rewrite Ep. destruct (efut s e) eqn:Ef; [contradiction| |];
+        match goal with |- context [Lock.step ?L ?o] => destruct (Lock.step L o) as [l' r] eqn:El end;
+        intros E; pose proof (finish_wait_res _ _ _ _ _ _ _ _ _ E) as Hres;
+        assert (Hli : phase_of (set_mustc (lk s) t false) t = Idle)
+          by (apply (K_coupling _ _ (LK_mustc _ _ t false K)); rewrite Ep; reflexivity);
+        match type of El with Lock.step ?L _ = _ =>
+          assert (HL : L = set_mustc (lk s) t false)
+            by (try destruct (mustc (lk s) t);
+                try (destruct (wait_interrupted_proj3 s t c e) as (-> & _)); reflexivity) end;
+        rewrite HL in El; pose proof (lstep_acq_res _ t _ _ _ (or_introl eq_refl) Hli El) as Rr;
+        destruct r; try contradiction; try discriminate;
+        match type of Hres with _ = if ?b then _ else _ => destruct b; discriminate end.
+    + pose proof (finish_wait_res _ _ _ _ _ _ _ _ _ Ef) as Hres.
+      destruct r; try contradiction; try discriminate.
+      match type of Hres with _ = if ?b then _ else _ => destruct b; discriminate end.
+  - intros Hes. destruct (V_wait0 _ _ _ _ _ _ _ _ V t c e Hpv Hes) as [Hin Hns]. split; [exact Hin|].
     destruct (efut s e) eqn:Ef; [left|contradiction|right]; (split; [reflexivity|]).
     + cbn [cstep]. rewrite Ep, Ef. reflexivity.
     + destruct (cstep s (CResume t)) as [s' res] eqn:E. cbn [snd]. intros ->.
       revert E. cbn [cstep]. rewrite Ep, Ef.
       match goal with |- context [Lock.step ?L ?o] => destruct (Lock.step L o) as [l' r] end.
-      intros E. pose proof (finish_wait_res _ _ _ _ _ _ _ _ E) as Hres. destruct r; discriminate.
+      intros E. pose proof (finish_wait_res _ _ _ _ _ _ _ _ _ E) as Hres. destruct r; discriminate.
 Qed.
 
 (* ---------------------------------------------------------------------------------------------------- *)
-(* F7 (fixed in /repo by 826e17f): with the owner record never cleared (`pinned := true`) clause 7 fails  *)
+(* 8. known finding F18: the strong reading of "wait() returns only to a task that was notified"         *)
 (* ---------------------------------------------------------------------------------------------------- *)
-Definition f7_prefix := [CAcquire 1; CResume 1; CRelease 1].
-Definition f7_suffix := [CAcquire 2; CResume 2; CWait 2; CAcquire 3; CResume 3; CNotify 3 1].
+(* For the op sequence `ops`: whenever a wait() returns normally, the notification it returns on was issued by
+   a notify / notify_all call (recorded in `nlog`) that was made after this wait() had begun: events are
+   numbered by the order in which their wait() calls began, `horizon e` is the number of wait() calls begun
+   before the notify call whose notification event e carries. *)
+Definition notified_only_for (fa : bool) (ops : list cop) : Prop :=
+  forall t s',
+    let s := final cstep (cinit fa 0) ops in
+    (exists c e, cphase_of s t = PWait c e \/ exists x, cphase_of s t = PReacq c e x) ->
+    cstep s (CResume t) = (s', RDone) ->
+    exists c e, (cphase_of s t = PWait c e \/ cphase_of s t = PReacq c e false) /\
+                eset s e = true /\ e < horizon s e /\ In (horizon s e) (nlog s).
+
+Definition notified_only_full : Prop := forall fa ops, notified_only_for fa ops.
+
+Lemma no_late_final ops : forall s, CInv s -> HInv s -> no_late_handover s ops = true ->
+  HInv (final cstep s ops).
+Proof.
+  induction ops as [|o r IH]; intros s C H Hn; cbn; [exact H|].
+  cbn [no_late_handover] in Hn. apply andb_prop in Hn. destruct Hn as [H1 H2]. apply negb_true_iff in H1.
+  apply IH; [now apply cstep_inv| |exact H2]. destruct C as [P K V]. now apply cstep_hinv.
+Qed.
+
+Theorem cond_notified_only_no_late_handover fa ops :
+  no_late_handover (cinit fa 0) ops = true -> notified_only_for fa ops.
+Proof.
+  intros Hn t s' s Hph E.
+  assert (R : creach fa s) by (now exists ops).
+  assert (H : HInv s) by (apply no_late_final; [apply cinv_init|apply hinv_init|exact Hn]).
+  destruct (cond_wait_returns_notified_and_holding fa s t s' R Hph E) as ((c & e & Hp & Hes & _) & _).
+  exists c, e. destruct (H e Hes) as [H1 H2]. auto.
+Qed.
+
+(* W1 (task 1) waits; the notifier (task 2) cancels it and calls notify(1) in the same cycle, then releases;
+   LATE (task 3) starts to wait; W1 resumes, finds its event set and hands the notification to LATE; LATE's
+   wait() returns although the only notify call was made before LATE began to wait *)
+Definition f18_ops :=
+  [CAcquire 0 1; CResume 1; CWait 0 1; CAcquire 0 2; CResume 2; CCancel 1; CNotify 0 2 1; CRelease 0 2;
+   CAcquire 0 3; CResume 3; CWait 0 3; CResume 1; CResume 1; CRelease 0 1; CResume 3].
+
+Theorem cond_late_handover_refuted :
+  exists fa ops t s',
+    let s := final cstep (cinit fa 0) ops in
+    no_late_handover (cinit fa 0) ops = false /\ clean_run (cinit fa 0) ops = true /\
+    cphase_of s t = PReacq 0 1 false /\ cstep s (CResume t) = (s', RDone) /\
+    nlog s = [1] /\                       (* the only notify call was made when one wait() had begun ... *)
+    horizon s 1 = 1 /\                    (* ... its notification is the one event 1 carries ... *)
+    In t (held (lk s')) /\ consumed s' = 1. (* ... and task t, whose wait() was the second to begin, returns on it *)
+Proof.
+  exists false, f18_ops, 3. eexists. cbv zeta.
+  refine (conj _ (conj _ (conj _ (conj _ (conj _ (conj _ (conj _ _))))))).
+  4: { apply surjective_pairing. }
+  - vm_compute. reflexivity.
+  - vm_compute. reflexivity.
+  - vm_compute. reflexivity.
+  - vm_compute. reflexivity.
+  - vm_compute. reflexivity.
+  - vm_compute. auto.
+  - vm_compute. reflexivity.
+Qed.
+
+Theorem cond_notified_only_full_refuted : ~ notified_only_full.
+Proof.
+  intros F. specialize (F false f18_ops 3).
+  set (s := final cstep (cinit false 0) f18_ops) in *.
+  assert (Hp : cphase_of s 3 = PReacq 0 1 false) by (vm_compute; reflexivity).
+  assert (Hh : horizon s 1 = 1) by (vm_compute; reflexivity).
+  assert (Hr : snd (cstep s (CResume 3)) = RDone) by (vm_compute; reflexivity).
+  destruct (F (fst (cstep s (CResume 3)))) as (c & e & Hph & _ & Hlt & _).
+  - exists 0, 1. right. exists false. exact Hp.
+  - rewrite <- Hr. apply surjective_pairing.
+  - assert (e = 1) by (destruct Hph as [H|H]; rewrite Hp in H; congruence). subst e. lia.
+Qed.
+
+(* ---------------------------------------------------------------------------------------------------- *)
+(* F17 (fixed in /repo by ba2c76e) and F7 (fixed by 826e17f): with a private copy of the owner in each  *)
+(* Condition (`variant` 1: cleared by Condition.release(); 2: never cleared) clause 7 fails both ways    *)
+(* ---------------------------------------------------------------------------------------------------- *)
+(* (a) false refusal: the lock is held - acquired directly, or through the sibling condition - and notify /
+       notify_all / wait on the condition are refused *)
+Theorem cond_holder_refused_refuted_pinned :
+  exists fa ops t,
+    let s := final cstep (cinit fa 1) ops in
+    cphase_of s t = PIdle /\ In t (held (lk s)) /\ owner (lk s) = Some t /\
+    cstep s (CNotify 0 t 1) = (s, RRuntime) /\ cstep s (CNotifyAll 0 t) = (s, RRuntime) /\
+    cstep s (CWait 0 t) = (s, RRuntime) /\
+    (* the same task through the sibling condition 1 that shares the lock *)
+    exists ops', let s1 := final cstep (cinit fa 1) ops' in
+      In t (held (lk s1)) /\ snd (cstep s1 (CNotify 1 t 1)) = RDone /\ snd (cstep s1 (CNotify 0 t 1)) = RRuntime.
+Proof.
+  exists false, [LAcquire 1; CResume 1], 1. cbv zeta.
+  refine (conj _ (conj _ (conj _ (conj _ (conj _ (conj _ _)))))).
+  - vm_compute. reflexivity.
+  - vm_compute. auto.
+  - vm_compute. reflexivity.
+  - vm_compute. reflexivity.
+  - vm_compute. reflexivity.
+  - vm_compute. reflexivity.
+  - exists [CAcquire 1 1; CResume 1]. cbv zeta. vm_compute. auto.
+Qed.
+
+(* (b) false acceptance, ghost waiter and lost wake-up: acquire through the condition, release through the lock
+       (variant 1) resp. through the condition itself (variant 2, F7) *)
+Definition f17_prefix := [CAcquire 0 1; CResume 1; LRelease 1].
+Definition f7_prefix := [CAcquire 0 1; CResume 1; CRelease 0 1].
+Definition ghost_suffix := [CAcquire 0 2; CResume 2; CWait 0 2; CAcquire 0 3; CResume 3; CNotify 0 3 1].
+
+Definition ghost_waiter_witness (v : nat) (prefix : list cop) : Prop :=
+  let s := final cstep (cinit false v) prefix in
+  (* task 1 is idle and does not hold the lock ... *)
+  cphase_of s 1 = PIdle /\ ~ In 1 (held (lk s)) /\ owner (lk s) = None /\
+  (* ... yet its notify()/notify_all() are accepted ... *)
+  snd (cstep s (CNotify 0 1 1)) = RDone /\ snd (cstep s (CNotifyAll 0 1)) = RDone /\
+  (* ... and its wait() raises RuntimeError but leaves a stale event in the queue ... *)
+  snd (cstep s (CWait 0 1)) = RRuntime /\ cwaiters (fst (cstep s (CWait 0 1))) 0 = [0] /\
+  (* ... which later swallows a notify(1): task 2 is really waiting, one notification was issued, it went to
+     the stale event 0, task 2 is not runnable: a lost wake-up *)
+  let s2 := final cstep (fst (cstep s (CWait 0 1))) ghost_suffix in
+  cphase_of s2 2 = PWait 0 1 /\ issued s2 = 1 /\ consumed s2 = 0 /\
+  setlog s2 = [0] /\ cphase_of s2 1 = PIdle /\
+  eset s2 1 = false /\ efut s2 1 = FPending /\ cwaiters s2 0 = [1] /\
+  snd (cstep s2 (CResume 2)) = RRejected.
 
 Theorem cond_requires_holder_refuted_pinned :
-  exists fa ops t,
-    let s := final cstep (cinit fa true) ops in
-    (* t is idle and does not hold the lock ... *)
-    cphase_of s t = PIdle /\ ~ In t (held (lk s)) /\ owner (lk s) = None /\
-    (* ... yet its notify()/notify_all() are accepted ... *)
-    snd (cstep s (CNotify t 1)) = RDone /\ snd (cstep s (CNotifyAll t)) = RDone /\
-    (* ... and its wait() raises RuntimeError but leaves a stale event in the queue ... *)
-    snd (cstep s (CWait t)) = RRuntime /\ cwaiters (fst (cstep s (CWait t))) = [0] /\
-    (* ... which later swallows a notify(1): task 2 is really waiting, one notification was issued, nobody
-       received it, task 2 is not runnable: a lost wake-up *)
-    exists ops2 w e,
-      let s2 := final cstep (fst (cstep s (CWait t))) ops2 in
-      cphase_of s2 w = PWait e /\ issued s2 = 1 /\ consumed s2 = 0 /\
-      setlog s2 = [0] /\ cphase_of s2 t = PIdle /\      (* the notification went to t's stale event 0 *)
-      eset s2 e = false /\ efut s2 e = FPending /\ cwaiters s2 = [e] /\
-      snd (cstep s2 (CResume w)) = RRejected.
+  ghost_waiter_witness 1 f17_prefix /\ ghost_waiter_witness 2 f7_prefix.
 Proof.
-  exists false, f7_prefix, 1. cbv zeta.
-  refine (conj _ (conj _ (conj _ (conj _ (conj _ (conj _ (conj _ _))))))).
-  - vm_compute. reflexivity.
-  - vm_compute. intros [].
-  - vm_compute. reflexivity.
-  - vm_compute. reflexivity.
-  - vm_compute. reflexivity.
-  - vm_compute. reflexivity.
-  - vm_compute. reflexivity.
-  - exists f7_suffix, 2, 1. vm_compute. repeat split.
+  split; unfold ghost_waiter_witness; cbv zeta.
+  - refine (conj _ (conj _ (conj _ (conj _ (conj _ (conj _ (conj _ _))))))).
+    1, 3, 4, 5, 6, 7: vm_compute; reflexivity.
+    + vm_compute. intros [].
+    + vm_compute. repeat split.
+  - refine (conj _ (conj _ (conj _ (conj _ (conj _ (conj _ (conj _ _))))))).
+    1, 3, 4, 5, 6, 7: vm_compute; reflexivity.
+    + vm_compute. intros [].
+    + vm_compute. repeat split.
 Qed.
 
-(* the same history at HEAD: everything is refused and nothing changes *)
-Example f7_fixed_at_head :
-  let s := final cstep (cinit false false) f7_prefix in
-  cstep s (CNotify 1 1) = (s, RRuntime) /\ cstep s (CWait 1) = (s, RRuntime).
+(* the same histories at HEAD: every call by the non-holder is refused and nothing changes; the holder is
+   accepted whichever way it got the lock *)
+Example f17_fixed_at_head :
+  (let s := final cstep (cinit false 0) f17_prefix in
+   cstep s (CNotify 0 1 1) = (s, RRuntime) /\ cstep s (CWait 0 1) = (s, RRuntime)) /\
+  (let s := final cstep (cinit false 0) [LAcquire 1; CResume 1] in
+   snd (cstep s (CNotify 0 1 1)) = RDone /\ snd (cstep s (CNotify 1 1 1)) = RDone /\
+   snd (cstep s (CWait 1 1)) = RBlocked).
 Proof.
-  cbv zeta.
-  destruct (cond_requires_holder false (final cstep (cinit false false) f7_prefix) 1) as (H1 & H2 & _);
-    [now exists f7_prefix|reflexivity|vm_compute; intros []|].
-  split; [apply H2|exact H1].
+  split; cbv zeta.
+  - destruct (cond_requires_holder false (final cstep (cinit false 0) f17_prefix) 0 1) as (H1 & H2 & _);
+      [now exists f17_prefix|reflexivity|vm_compute; intros []|].
+    split; [apply H2|exact H1].
+  - vm_compute. auto.
 Qed.
 
 (* ---------------------------------------------------------------------------------------------------- *)
 (* non-vacuity: concrete reachable states meeting the hypotheses of the theorems above                   *)
 (* ---------------------------------------------------------------------------------------------------- *)
-(* tasks 1,2,3 wait (events 0,1,2 in that order), task 4 holds the lock *)
-Definition ex3 := [CAcquire 1; CResume 1; CWait 1; CAcquire 2; CResume 2; CWait 2;
-                   CAcquire 3; CResume 3; CWait 3; CAcquire 4; CResume 4].
+(* tasks 1,2,3 wait on condition 0 (events 0,1,2 in that order), task 4 holds the lock *)
+Definition ex3 := [CAcquire 0 1; CResume 1; CWait 0 1; CAcquire 0 2; CResume 2; CWait 0 2;
+                   CAcquire 0 3; CResume 3; CWait 0 3; CAcquire 0 4; CResume 4].
 
 Example ex_three_waiters :
-  let s := final cstep (cinit false false) ex3 in
-  cwaiters s = [0; 1; 2] /\ owner_rec s = Some 4 /\ held (lk s) = [4] /\
-  snd (cstep s (CNotify 4 2)) = RDone /\ cwaiters (fst (cstep s (CNotify 4 2))) = [2] /\
-  snd (cstep s (CNotify 4 7)) = RDone /\ cwaiters (fst (cstep s (CNotify 4 7))) = [] /\
-  snd (cstep s (CNotify 4 0)) = RDone /\ cwaiters (fst (cstep s (CNotify 4 0))) = [0; 1; 2] /\
-  snd (cstep s (CNotifyAll 4)) = RDone /\
+  let s := final cstep (cinit false 0) ex3 in
+  cwaiters s 0 = [0; 1; 2] /\ held (lk s) = [4] /\
+  snd (cstep s (CNotify 0 4 2)) = RDone /\ cwaiters (fst (cstep s (CNotify 0 4 2))) 0 = [2] /\
+  snd (cstep s (CNotify 0 4 7)) = RDone /\ cwaiters (fst (cstep s (CNotify 0 4 7))) 0 = [] /\
+  snd (cstep s (CNotify 0 4 0)) = RDone /\ cwaiters (fst (cstep s (CNotify 0 4 0))) 0 = [0; 1; 2] /\
+  snd (cstep s (CNotifyAll 0 4)) = RDone /\
+  (* a notify on the sibling condition 1 (same lock, no waiters there) wakes nobody *)
+  snd (cstep s (CNotify 1 4 5)) = RDone /\ cwaiters (fst (cstep s (CNotify 1 4 5))) 0 = [0; 1; 2] /\
   (* non-holder 5: hypotheses of cond_requires_holder *)
-  cphase_of s 5 = PIdle /\ snd (cstep s (CNotify 5 1)) = RRuntime.
+  cphase_of s 5 = PIdle /\ snd (cstep s (CNotify 0 5 1)) = RRuntime.
+Proof. vm_compute. repeat split. Qed.
+
+(* two conditions on one lock, direct lock use: acquire directly, wait on 1, another task acquires through
+   condition 0, notifies on 1, releases directly *)
+Example ex_shared_lock :
+  let s := final cstep (cinit false 0)
+             [LAcquire 1; CResume 1; CWait 1 1; CAcquire 0 2; CResume 2; CNotify 1 2 1; LRelease 2; CResume 1] in
+  cphase_of s 1 = PReacq 1 0 false /\ snd (cstep s (CResume 1)) = RDone /\
+  held (lk (fst (cstep s (CResume 1)))) = [1].
 Proof. vm_compute. repeat split. Qed.
 
 (* wait() returning normally: from the event wait directly (fast_acquire lock) and from the re-acquire *)
 Example ex_wait_returns_fast :
-  let s := final cstep (cinit true false) [CAcquire 1; CWait 1; CAcquire 2; CNotify 2 1; CRelease 2] in
-  cphase_of s 1 = PWait 0 /\ snd (cstep s (CResume 1)) = RDone.
+  let s := final cstep (cinit true 0) [CAcquire 0 1; CWait 0 1; CAcquire 0 2; CNotify 0 2 1; CRelease 0 2] in
+  cphase_of s 1 = PWait 0 0 /\ snd (cstep s (CResume 1)) = RDone.
 Proof. vm_compute. repeat split. Qed.
 
 Example ex_wait_returns_after_reacquire :
-  let s := final cstep (cinit false false) (ex3 ++ [CNotify 4 1; CResume 1; CRelease 4]) in
-  cphase_of s 1 = PReacq 0 false /\ snd (cstep s (CResume 1)) = RDone /\
+  let s := final cstep (cinit false 0) (ex3 ++ [CNotify 0 4 1; CResume 1; CRelease 0 4]) in
+  cphase_of s 1 = PReacq 0 0 false /\ snd (cstep s (CResume 1)) = RDone /\
   consumed (fst (cstep s (CResume 1))) = 1.
 Proof. vm_compute. repeat split. Qed.
 
 (* pass-on, cancelled AFTER the notification (future already resolved: must-cancel flag) *)
 Example ex_passon_cancel_after_notify :
-  let s := final cstep (cinit false false) (ex3 ++ [CNotify 4 1; CCancel 1]) in
-  cphase_of s 1 = PWait 0 /\ eset s 0 = true /\ mustc (lk s) 1 = true /\ cwaiters s = [1; 2] /\
+  let s := final cstep (cinit false 0) (ex3 ++ [CNotify 0 4 1; CCancel 1]) in
+  cphase_of s 1 = PWait 0 0 /\ eset s 0 = true /\ mustc (lk s) 1 = true /\ cwaiters s 0 = [1; 2] /\
+  late_handover s (CResume 1) = false /\
   snd (cstep s (CResume 1)) = RBlocked /\ eset (fst (cstep s (CResume 1))) 1 = true /\
   snd (cstep (fst (cstep s (CResume 1))) (CResume 2)) = RBlocked.
 Proof. vm_compute. repeat split. Qed.
 
 (* pass-on, cancelled BEFORE the notification in the same cycle (future cancelled, event still queued) *)
 Example ex_passon_cancel_before_notify :
-  let s := final cstep (cinit false false) (ex3 ++ [CCancel 1; CNotify 4 1]) in
-  cphase_of s 1 = PWait 0 /\ eset s 0 = true /\ efut s 0 = FCancelled /\ cwaiters s = [1; 2] /\
+  let s := final cstep (cinit false 0) (ex3 ++ [CCancel 1; CNotify 0 4 1]) in
+  cphase_of s 1 = PWait 0 0 /\ eset s 0 = true /\ efut s 0 = FCancelled /\ cwaiters s 0 = [1; 2] /\
   inflight (fst (cstep s (CResume 1))) = [1].
 Proof. vm_compute. repeat split. Qed.
 
 (* pass-on through the AnyIO scope (cancel before the notification), and scope cancel after: no effect *)
 Example ex_scope_cancel :
-  let s := final cstep (cinit false false) (ex3 ++ [CScopeCancel 1; CNotify 4 2; CScopeCancel 2]) in
-  efut s 0 = FCancelled /\ efut s 1 = FSet /\ mustc (lk s) 2 = false /\ cwaiters s = [2].
+  let s := final cstep (cinit false 0) (ex3 ++ [CScopeCancel 1; CNotify 0 4 2; CScopeCancel 2]) in
+  efut s 0 = FCancelled /\ efut s 1 = FSet /\ mustc (lk s) 2 = false /\ cwaiters s 0 = [2].
 Proof. vm_compute. repeat split. Qed.
 
 Example ex_passon_to_nobody :
-  let s := final cstep (cinit false false)
-             [CAcquire 1; CResume 1; CWait 1; CAcquire 2; CResume 2; CNotify 2 1; CCancel 1] in
-  cphase_of s 1 = PWait 0 /\ eset s 0 = true /\ mustc (lk s) 1 = true /\ cwaiters s = [] /\
+  let s := final cstep (cinit false 0)
+             [CAcquire 0 1; CResume 1; CWait 0 1; CAcquire 0 2; CResume 2; CNotify 0 2 1; CCancel 1] in
+  cphase_of s 1 = PWait 0 0 /\ eset s 0 = true /\ mustc (lk s) 1 = true /\ cwaiters s 0 = [] /\
   dropped (fst (cstep s (CResume 1))) = 1.
 Proof. vm_compute. repeat split. Qed.
 
-(* a clean, non-trivial history: native cancels of waiters, an AnyIO scope cancel inside the shielded
-   re-acquire (no effect), a wait() that returns and one that re-raises - both holding the lock *)
-Definition ex_clean := ex3 ++ [CNotify 4 1; CResume 1; CScopeCancel 1; CCancel 2; CResume 2; CRelease 4;
-                               CResume 1; CRelease 1].
+(* a clean, non-trivial history without late hand-over: native cancels of waiters, an AnyIO scope cancel inside
+   the shielded re-acquire (no effect), a legitimate hand-over, a wait() that returns and one that re-raises *)
+Definition ex_clean := ex3 ++ [CNotify 0 4 1; CResume 1; CScopeCancel 1; CCancel 2; CResume 2; CRelease 0 4;
+                               CResume 1; CRelease 0 1].
 Example ex_clean_run :
-  clean_run (cinit false false) ex_clean = true /\
-  let s := final cstep (cinit false false) ex_clean in
-  cphase_of s 2 = PReacq 1 true /\ snd (cstep s (CResume 2)) = RCancelled /\
-  held (lk (fst (cstep s (CResume 2)))) = [2] /\ lost s = 0 /\ consumed s = 1 /\ cwaiters s = [2].
+  clean_run (cinit false 0) ex_clean = true /\ no_late_handover (cinit false 0) ex_clean = true /\
+  let s := final cstep (cinit false 0) ex_clean in
+  cphase_of s 2 = PReacq 0 1 true /\ snd (cstep s (CResume 2)) = RCancelled /\
+  held (lk (fst (cstep s (CResume 2)))) = [2] /\ lost s = 0 /\ consumed s = 1 /\ cwaiters s 0 = [2].
+Proof. vm_compute. repeat split. Qed.
+
+(* a legitimate hand-over is not a late one: the receiver was waiting when notify was called *)
+Example ex_no_late_handover_with_passon :
+  let ops := ex3 ++ [CCancel 1; CNotify 0 4 1; CRelease 0 4; CResume 1; CResume 1; CRelease 0 1; CResume 2] in
+  no_late_handover (cinit false 0) ops = true /\
+  let s := final cstep (cinit false 0) ops in
+  cphase_of s 2 = PReacq 0 1 false /\ snd (cstep s (CResume 2)) = RDone /\ horizon s 1 = 3.
 Proof. vm_compute. repeat split. Qed.
 
 (* documented scope: what a NATIVE Task.cancel() inside the shielded re-acquire does.  Task 1 was notified, woke
    up normally and queues for the lock; the native cancel makes its wait() raise without the lock, and the
    notification is neither consumed nor handed on: tasks 2 and 3 keep sleeping. *)
-Definition ex_native := ex3 ++ [CNotify 4 1; CResume 1; CCancel 1].
+Definition ex_native := ex3 ++ [CNotify 0 4 1; CResume 1; CCancel 1].
 Example ex_native_cancel_in_reacquire :
-  clean_run (cinit false false) ex_native = false /\
-  let s := final cstep (cinit false false) ex_native in
-  cphase_of s 1 = PReacq 0 false /\
+  clean_run (cinit false 0) ex_native = false /\
+  let s := final cstep (cinit false 0) ex_native in
+  cphase_of s 1 = PReacq 0 0 false /\
   snd (cstep s (CResume 1)) = RCancelled /\
   let s' := fst (cstep s (CResume 1)) in
-  held (lk s') = [4] /\ owner_rec s' = Some 4 /\ lost s' = 1 /\ consumed s' = 0 /\ inflight s' = [] /\
-  cwaiters s' = [1; 2] /\ issued s' = 1.
+  held (lk s') = [4] /\ lost s' = 1 /\ consumed s' = 0 /\ inflight s' = [] /\
+  cwaiters s' 0 = [1; 2] /\ issued s' = 1.
 Proof. vm_compute. repeat split. Qed.
